@@ -24,28 +24,28 @@ Definition is_neg (o:option expr) : bool := match o with Some (Un UNeg _) => tru
 Definition cval (o:option expr) : option num := match o with Some (Const n) => Some n | _ => None end.
 Definition isSome {A} (o:option A) := match o with Some _ => true | None => false end.
 
-Inductive dir := L | R.
+Inductive dir := DL | DR.
 Definition path := list dir.
 Fixpoint subtree (e:expr) (p:path) {struct p} : option expr :=
   match p with [] => Some e | d::q =>
     match e, d with
-    | Bin _ l _, L => subtree l q | Bin _ _ r, R => subtree r q | Un _ c, R => subtree c q | _,_ => None end end.
+    | Bin _ l _, DL => subtree l q | Bin _ _ r, DR => subtree r q | Un _ c, DR => subtree c q | _,_ => None end end.
 Fixpoint replace (e:expr) (p:path) (n:expr) {struct p} : expr :=
   match p with [] => n | d::q =>
     match e, d with
-    | Bin k l r, L => Bin k (replace l q n) r | Bin k l r, R => Bin k l (replace r q n)
-    | Un u c, R => Un u (replace c q n) | _,_ => e end end.
+    | Bin k l r, DL => Bin k (replace l q n) r | Bin k l r, DR => Bin k l (replace r q n)
+    | Un u c, DR => Un u (replace c q n) | _,_ => e end end.
 Definition parent_path (p:path) : option (path * dir) :=
   match rev p with [] => None | d::rq => Some (rev rq, d) end.
 Definition parent (root:expr) (p:path) : option expr := match parent_path p with Some (q,_) => subtree root q | None => None end.
 Definition sibling (root:expr) (p:path) : option expr :=
-  match parent_path p with Some (q,d) => match subtree root q with Some pe => match d with L => rgt pe | R => lft pe end | None => None end | None => None end.
+  match parent_path p with Some (q,d) => match subtree root q with Some pe => match d with DL => rgt pe | DR => lft pe end | None => None end | None => None end.
 (* in-order: a unary node is visited before its (right) operand *)
 Fixpoint inorder_paths (e:expr) (pre:path) : list path :=
   match e with
   | Const _ | Var _ => [pre]
-  | Un _ c => pre :: inorder_paths c (pre ++ [R])
-  | Bin _ l r => inorder_paths l (pre ++ [L]) ++ pre :: inorder_paths r (pre ++ [R]) end.
+  | Un _ c => pre :: inorder_paths c (pre ++ [DR])
+  | Bin _ l r => inorder_paths l (pre ++ [DL]) ++ pre :: inorder_paths r (pre ++ [DR]) end.
 Fixpoint contains_add (e:expr) : bool :=
   match e with Bin KAdd l r => true | Bin _ l r => contains_add l || contains_add r | Un _ c => contains_add c | _ => false end.
 Fixpoint vars (e:expr) : list N :=
